@@ -136,14 +136,23 @@ fn tac(tag: &Tag, tokens: &mut Tokenizer) -> Result<Val, Error> {
 
 fn doctype(name: &str, external: Option<ExternalId>, internal: Option<&str>) -> Val {
     let external = external.map(|ext| match ext {
-        ExternalId::System(system) => format!("SYSTEM {system}"),
-        ExternalId::Public(pub_id, system) => format!("PUBLIC {pub_id} {system}"),
+        // keep the literals quoted, so that the identifier can be written back as it is
+        ExternalId::System(system) => format!("SYSTEM {}", quoted(&system)),
+        ExternalId::Public(pub_id, system) => {
+            format!("PUBLIC {} {}", quoted(&pub_id), quoted(&system))
+        }
     });
     make_obj([
         ("name", Some(name.to_owned())),
         ("external", external),
         ("internal", internal.map(|s| s.to_owned())),
     ])
+}
+
+/// Put a literal between quotation marks that do not occur in it.
+fn quoted(s: &str) -> String {
+    let q = if s.contains('"') { '\'' } else { '"' };
+    format!("{q}{s}{q}")
 }
 
 fn make_obj<T: Into<Val>, const N: usize>(arr: [(&str, Option<T>); N]) -> Val {
@@ -168,7 +177,8 @@ fn parse(tk: Token, tokens: &mut Tokenizer) -> Result<Val, Error> {
             make_obj([
                 ("version", Some(ss_val(version))),
                 ("encoding", encoding.map(ss_val)),
-                ("standalone", standalone.map(|b| b.into())),
+                // attribute values are strings
+                ("standalone", standalone.map(|b| String::from(if b { "yes" } else { "no" }).into())),
             ]),
         ),
         Token::ProcessingInstruction {
